@@ -119,6 +119,22 @@ def install(E, faults=True):
         return mkpath(ctx, resolved(ctx, ps(ctx, p)))
     M[(PATH, "resolve")] = p_resolve
 
+    # absolute(): anchors a relative path at the working directory, resolves NOTHING (symlinks, '..' stay as written);
+    # expanduser(): replaces a leading '~' component, otherwise the path itself
+    cwd = z3.String("fs.cwd")
+    expanduser = z3.Function("path_expanduser", S, S)
+
+    def p_absolute(ctx, p, args, kw):
+        s = ps(ctx, p)
+        ctx.assume(z3.And(z3.PrefixOf(SV("/"), cwd), fs_resolve(cwd) == cwd))
+        return mkpath(ctx, z3.If(z3.PrefixOf(SV("/"), s), s, z3.If(s == SV(""), cwd, z3.Concat(cwd, SV("/"), s))))
+    M[(PATH, "absolute")] = p_absolute
+
+    def p_expanduser(ctx, p, args, kw):
+        s = ps(ctx, p)
+        return mkpath(ctx, z3.If(z3.PrefixOf(SV("~"), s), expanduser(s), s))
+    M[(PATH, "expanduser")] = p_expanduser
+
     def p_relative_to(ctx, p, args, kw):
         a, b = ps(ctx, p), ps(ctx, args[0])
         if not ctx.branch(inside(b, a), "relative_to: inside"):
